@@ -159,7 +159,8 @@ def design_proof(res, module, what=""):
 
 
 _CALL_KEYS = ("cls", "nodes", "edges", "ew", "nw", "mode", "wt", "num", "den", "k", "ign", "cons", "cov", "covlen", "elen", "nlen",
-              "starts", "ends", "escale", "sws", "plr", "plf", "opt", "cons_kind", "float_data")
+              "starts", "ends", "escale", "sws", "plr", "plf", "opt", "cons_kind", "float_data", "eps", "lam", "ignpct", "trustpct",
+              "lenattr", "scan_size", "order")
 
 
 def presolve_off_probe(records):
@@ -184,6 +185,12 @@ def presolve_off_probe(records):
                 x["k_none"] = True
         if x.get("covlen", [0, 1])[0] == 0:
             x.pop("covlen", None)
+        if x.get("eps") == [0, 1]:
+            x.pop("eps")
+        if x.get("lam") == [0, 1]:
+            x.pop("lam")
+        if x.get("ignpct", -1) < 0:
+            x.pop("ignpct", None)
         x["sopt"] = {"presolve": "off"}
         x["id"] = len(redo) + 1
         redo.append((x, r0))
